@@ -11,9 +11,6 @@ open Vflow Vflow.Sflow
 @[simp] theorem fuel_bind {α β : Type} (f : α → Res β) : (Res.fuel >>= f) = .fuel := rfl
 @[simp] theorem pure_eq {α : Type} (a : α) : (pure a : Res α) = .ok a := rfl
 
-/-- octet `i` of `b` as a number (0 when out of range; only used under a length guard) -/
-def oct (b : Bytes) (i : Nat) : Nat := (b.getD i 0).toNat
-
 theorem oct_lt (b : Bytes) (i : Nat) : oct b i < 256 := (b.getD i 0).toNat_lt
 
 theorem at?_lt {b : Bytes} {i : Nat} (h : i < b.length) : at? b i = .ok (oct b i) := by
